@@ -240,7 +240,7 @@ def gen_cases(ctx, quick):
     r = ctx.rng
     pow2 = [2, 4, 8, 16, 32] if quick else [2, 4, 8, 16, 32, 64]
     nmax = 32 if quick else 64
-    rounds = 7 if quick else 36
+    rounds = 7 if quick else 30
     cases = []
 
     def add(label, method, solver, inp, rows, N, D, d, exact, rank):
